@@ -80,6 +80,7 @@ func init() {
 			out := []Instance{
 				{Scenario: "c12_ends", Params: mustJSON(EndsParams{Depth: d}), Bound: 0, Shards: 8},
 				{Scenario: "c12_finite", Params: mustJSON(FiniteParams{}), Bound: b, Shards: 8},
+				{Scenario: "c12_conc", Params: mustJSON(struct{}{}), Bound: b - 1, Shards: 8, Note: "transient end (node 0) and final end (node 1) concurrently with each other and with events on a third vBucket"},
 			}
 			for f := 1; f <= 5; f++ {
 				out = append(out, Instance{Scenario: "c12_reopenfail", Params: mustJSON(ReopenFailParams{Failures: f}), Bound: 0})
@@ -327,4 +328,73 @@ func reopenFailMain(p ReopenFailParams) {
 		vrt.Failf("active stream count %d after a recovered transient end", activeCount(e))
 	}
 	vrt.SetOutcome(fmt.Sprint(opens))
+}
+
+// c12_conc: ends arriving concurrently from two nodes and concurrently with events.
+func init() {
+	scenarios["c12_conc"] = func(raw json.RawMessage) *vrt.Scenario {
+		return &vrt.Scenario{Name: "c12_conc", FreeChoices: true, NoTimerAlt: true, MaxSteps: 400000, Main: func() {
+			resetGlobals()
+			o := EnvOpts{Vbs: 3, Nodes: 2, CheckpointType: "manual", WrapMeta: true}
+			c := NewCluster(&o)
+			e := NewEnv(c, o)
+			e.Cons.AutoAck = true
+			e.Stream.Open()
+			c.WaitIdle()
+			// vb0 (node0) gets a transient end, vb1 (node1) a final one, vb2 (node0) keeps receiving events
+			tc := endCauses[vrt.Choose(5, true, "transient-cause")]
+			fc := endCauses[5+vrt.Choose(4, true, "final-cause")]
+			vrt.Window(true)
+			c.Append(0, marker(1, 1), symbolPacket("M", 1))
+			c.Append(2, marker(1, 2), symbolPacket("M", 1), symbolPacket("M", 2))
+			c.EndStream(0, tc.err)
+			c.EndStream(1, fc.err)
+			c.Append(2, marker(3, 3), symbolPacket("M", 3))
+			vrt.Sleep(3e9)
+			vrt.Quiesce()
+			c.WaitIdle()
+			vrt.Quiesce()
+			vrt.Window(false)
+			if got := activeCount(e); got != 2 {
+				vrt.Failf("transient end of vb0 (%s) and final end of vb1 (%s) concurrently: active stream count %d, want 2", tc.name, fc.name, got)
+			}
+			if vrt.Closed(e.StopCh) {
+				vrt.Failf("the client stopped although vb0 and vb2 are still assigned")
+			}
+			if !c.StreamOpen(0) || c.StreamOpen(1) || !c.StreamOpen(2) {
+				vrt.Failf("server-side streams open: vb0=%v vb1=%v vb2=%v, want true false true", c.StreamOpen(0), c.StreamOpen(1), c.StreamOpen(2))
+			}
+			reopens := 0
+			for _, r := range c.RequestsOf("openstream") {
+				if r.Vb == 0 {
+					reopens++
+				}
+			}
+			if reopens != 2 {
+				vrt.Failf("vb0 was requested %d times, want 2 (open + one re-open)", reopens)
+			}
+			n2 := 0
+			for _, d := range e.Cons.Events {
+				if d.Vb == 2 {
+					n2++
+				}
+			}
+			if n2 != 3 {
+				vrt.Failf("vb2 delivered %d events while its neighbours ended, want 3", n2)
+			}
+			// vb0 continues from the settled position: the event at 1 may be re-delivered only if it was not settled
+			c.Append(0, marker(2, 2), symbolPacket("M", 2))
+			c.WaitIdle()
+			seen2 := false
+			for _, d := range e.Cons.Events {
+				if d.Vb == 0 && d.Seq == 2 {
+					seen2 = true
+				}
+			}
+			if !seen2 {
+				vrt.Failf("vb0 does not deliver new events after its transient end")
+			}
+			vrt.SetOutcome(fmt.Sprintf("%s/%s/%d", tc.name, fc.name, len(e.Cons.Events)))
+		}}
+	}
 }
